@@ -62,6 +62,26 @@ def main():
                 h = f"acc_{name}_{f['set']}"
                 kani.append(f"    #[kani::proof]\n    #[kani::unwind(10)]\n    fn {h}() {{\n        let raw: [u8; {size}] = kani::any();\n        let v: u8 = kani::any();\n        let mut h = {name}(raw);\n        h.{f['set']}(v);\n        let mut exp = raw;\n        exp[{b}] = {ksetx};\n        assert!(h.0 == exp);\n        kani::cover!(true);\n    }}\n")
                 index.append({"harness": h, "struct": name, "accessor": f['set'], "kind": "set", "qualified": f"{mod}::verif_kani_acc::{h}"})
+    # C18 consistency of the table itself: for every setter, read-after-write returns the value truncated to the field
+    # width and every other field sharing the byte is preserved (fields in other bytes: the update touches one index)
+    for st in lay['struct']:
+        name, mod = st['name'], st['module']
+        out = per_mod.setdefault(mod, [])
+        fields = [f for f in st['field'] if 'be_bytes' not in f]
+        for f in fields:
+            if 'set' not in f or f['width'] == 8:
+                continue
+            b, sh, w = f['byte'], f['shift'], f['width']
+            m = mask(w)
+            ens = [f"(((b & !(({hex(m)}u8) << {sh})) | ((v & {hex(m)}) << {sh})) >> {sh}) & {hex(m)} == v & {hex(m)}"]
+            for g in fields:
+                if g is f or g['byte'] != b or g['width'] == 8:
+                    continue
+                gs, gm = g['shift'], mask(g['width'])
+                ens.append(f"(((b & !(({hex(m)}u8) << {sh})) | ((v & {hex(m)}) << {sh})) >> {gs}) & {hex(gm)} == (b >> {gs}) & {hex(gm)}")
+            body = "\n".join(f"    assert({e}) by(bit_vector);" for e in ens)
+            out.append(f"/// C18: {name}::{f['set']} stores v truncated to {w} bit(s) and preserves every other field of byte {b}\n"
+                       f"pub proof fn lemma_layout_{name}_{f['name']}(b: u8, v: u8)\n    ensures\n" + "".join(f"        {e},\n" for e in ens) + "{\n" + body + "\n}\n")
     for mod, parts in per_mod.items():
         with open(os.path.join(outvc, f"{mod}.acc.vc"), 'w') as fh:
             fh.write("//# GENERATED by tools/gen_layouts.py from contracts/layouts.toml -- do not edit\n@top\n")
